@@ -283,14 +283,16 @@ func short(id string) string {
 
 // pairing relates old and new commits by walking both histories in lockstep from every ref.
 type pairing struct {
-	fwd map[string]string
-	rev map[string]string
+	fwd      map[string]string
+	rev      map[string]string
+	conflict map[string]bool // old commits with more than one image (their trees are not compared: the relation is broken there)
 }
 
 func (j *judge) pairCommits(before, after *snap, rng map[string]bool, o, n string, p *pairing, via string) {
 	if q, ok := p.fwd[o]; ok {
 		if q != n {
 			j.bad("C12:shape:commit-has-two-images", fmt.Sprintf("old commit %s is rewritten as %s and as %s (reached via %s): the graph shape changed", short(o), short(q), short(n), via), nil)
+			p.conflict[o] = true
 		}
 		return
 	}
@@ -335,7 +337,7 @@ func (j *judge) pairCommits(before, after *snap, rng map[string]bool, o, n strin
 
 // checkRefs pairs histories from every ref and checks tags and retargeting.
 func (j *judge) checkRefs(before, after *snap, rng map[string]bool, movedBranch string) *pairing {
-	p := &pairing{fwd: map[string]string{}, rev: map[string]string{}}
+	p := &pairing{fwd: map[string]string{}, rev: map[string]string{}, conflict: map[string]bool{}}
 	if before.head != after.head {
 		j.bad("C12:shape:head-changed", fmt.Sprintf("HEAD was %s, is %s", before.head, after.head), nil)
 	}
@@ -803,7 +805,7 @@ func (ev *env) doCase(sh *shape, op string, cd caseDef, id string, sample map[st
 		sort.Strings(olds)
 		for _, o := range olds {
 			n := so.pairs.fwd[o]
-			if !rng[o] {
+			if !rng[o] || so.pairs.conflict[o] {
 				continue
 			}
 			so.inRange++
